@@ -6,7 +6,7 @@ entail that the operands are compatible (equal orders, equal mode sequences).  A
 zip truncation, comparison of lengths only, a check on one position) leaves a returning path without that entailment."""
 from __future__ import annotations
 
-from .scenarios import scn, no_value_check, raises_check, compat_seqs, TT
+from .scenarios import scn, no_value_check, raises_check, compat_seqs, TT, S
 from .torchmodel import make_tt
 from .values import *
 from .sym import P
@@ -108,3 +108,38 @@ _valid("amen_mv:valid+x0", "_amen.amen_mv", ("C11",), _mv_valid)
 _valid("amen_mm:valid+X0", "_amen.amen_mm", ("C11",), _mm_valid)
 _valid("amen_solve:valid+x0", "solvers.amen_solve", ("C12",), _solve_valid)
 _valid("truediv:valid", TT + "__truediv__", ("C13",), _div_valid)
+
+
+# --------------------------------------------------------------------------- s / y : the numerator handed to the solver is s * ones (C13)
+
+def _rtruediv_hook(it, args, kwargs, fr, node):
+    """amen_divide(divisor, numerator, ...): the numerator must be the single-strand train of all-ones cores with total factor s"""
+    from types import SimpleNamespace
+    from .scenarios import strand_check, S
+    from .spec import Pos
+    from . import net as _net
+    from .torchmodel import mode_atom
+    a, b = (args + [None, None])[:2]
+    a = kwargs.get("a", a)
+    b = kwargs.get("b", b)
+    ok0 = isinstance(a, VTT) and a.operand and a.name == "y"
+    it.checks.append(("rtruediv.operator-slot", ok0, "the divisor y is handed to the operator slot of amen_divide" if ok0 else
+                      "the first argument of amen_divide (the diagonal operator) is not the divisor y"))
+    if not isinstance(b, VTT):
+        it.checks.append(("rtruediv.numerator", False, f"the right-hand side of amen_divide is a {type(b).__name__}, not a TT object"))
+        return VOpaque("amen-result")
+
+    def strands(sit, p: Pos):
+        return [("s", _net.ones_tensor(sit.sp, [ONE, mode_atom(sit, "N", "y", p.pos), ONE]))]
+    out = SimpleNamespace(value=b, facts=it.facts, space=it.sp)
+    for sub, ok, detail in strand_check(strands, {"s": S()}, lambda sit: sit.facts.norm(P.atom("d_y")))(out):
+        it.checks.append(("rtruediv.numerator." + sub, ok, detail if ok else "numerator of s / y (must be s * ones, the scalar applied exactly once): " + detail))
+    return VOpaque("amen-result")
+
+
+from .sym import ONE  # noqa: E402
+
+for _kind in ("float", "tensor1"):
+    scn(name=f"rtruediv:scalar[{_kind}]/tt", func=TT + "__rtruediv__", props=("C13",),
+        hooks={("function", "torchtt._division.amen_divide"): _rtruediv_hook}, check=no_value_check,
+        args=(lambda k: (lambda it: (make_tt(it, "y", False), [VScalar(S(), k)], {})))(_kind))
